@@ -75,7 +75,7 @@ pub fn strategy() -> BoxedStrategy<Case> {
     let rt = (
         0i32..=16,
         prop_oneof![1 => Just(String::new()), 6 => gen::unicode_string(24), 1 => gen::unicode_string(300)],
-        prop_oneof![1 => Just(Blob::Hex(String::new())), 5 => small_bytes(40), 1 => (0u32..=200, any::<u32>()).prop_map(|(n, s)| Blob::Rnd(n, s))],
+        prop_oneof![1 => Just(Blob::Hex(String::new())), 10 => small_bytes(40), 2 => (0u32..=200, any::<u32>()).prop_map(|(n, s)| Blob::Rnd(n, s)), 1 => (6_000u32..=20_000, any::<u32>()).prop_map(|(n, s)| Blob::Rnd(n, s))],
         md::entries(6, true, true),
         any::<bool>(),
     )
